@@ -26,6 +26,10 @@ def families(tier, seed):
             for pre, vec in (((True,), False), ((False,), True), ((True, False), True)):
                 out.append(dict(tag=f"{tag}/{form}{i}/after-{'-'.join('v' if p else 'n' for p in pre)}", features=dict(feats, form=form, req=i, pre=list(pre)),
                                 kind="outputs", model=model, request=req, form=form, vec=vec, pre_runs=list(pre)))
+    # the same paths through get_variable_positions once a function has been compiled (the state layout is cached on the template)
+    for tag, feats, model in gen.c06_families():
+        for vec in (False, True):
+            out.append(dict(tag=f"{tag}/positions-after-get_run_func", features=dict(feats, positions=True), kind="positions", model=model, vec=vec))
     # the same paths in `inputs` (C08 has the full set): one column per addressed node, in declaration order
     for tag, feats, model, inputs in gen.c08_cases(seed):
         if tag.split("-")[0] in ("I4", "I11", "I12", "I15"):
@@ -37,6 +41,58 @@ def families(tier, seed):
             for vec in (False, True):
                 out.append(dict(tag=tag, features=feats, kind="overrides", model=model, ops=ops, vec=vec, seed=seed))
     return out
+
+
+def positions_case(c):
+    """After get_run_func(clear=False) on a template, get_variable_positions(path) (dict form, string form with a wildcard) names the
+    position of exactly that variable in the state vector the returned function works on (checked through the initial values,
+    which differ from node to node, and through the returned state map)."""
+    import numpy as np
+    from rtc import oracle, mdl
+    model = c["model"]
+    comp = oracle.compile_model(model, vectorize=c["vec"], clear=False)
+    tpl, smap = comp["tpl"], comp["smap"]
+    want = oracle.positions(comp, model)            # from the returned map + the relative index (the way run() resolves a path)
+    bnames = {}
+    for bn in tpl.compute_graph.state_vars:          # backend name of every state variable, from the compute graph itself
+        try:
+            bnames[tpl._ir.get_frontend_varname(bn)] = bn
+        except Exception:
+            pass
+    y0 = np.asarray(comp["args"][1], dtype=float).ravel()
+    init = mdl.initial_state(model)
+    fails_new, fails_structural = [], []
+    for v, pos in want.items():
+        if abs(y0[pos] - init[v]) > 1e-12:
+            continue                                 # the reference position itself is not confirmed by the initial value: not judged here
+        saved = tpl._state_var_indices
+        tpl._state_var_indices = {}
+        try:
+            bk = tpl.get_variable_positions({"k": v})[1]["k"]
+        finally:
+            tpl._state_var_indices = saved
+        rng = smap[bk]
+        feats = dict(positions_after_compile=True, layout_scalar=not isinstance(rng, tuple),
+                     backend_name_differs=bk in bnames and bnames[bk] != v.split("/")[-1])
+        try:
+            got = tpl.get_variable_positions({"k": v})[0]["k"]
+            got = int(np.asarray(got).squeeze()) if np.size(got) == 1 else [int(x) for x in np.ravel(got)]
+        except Exception as exn:
+            got = f"{type(exn).__name__}: {exn}"
+        if got != pos:
+            rec = dict(clause="after get_run_func(clear=False): get_variable_positions(path) is the position of that variable in the state vector",
+                       var=v, observed=got, expected=pos, features=feats)
+            (fails_structural if (feats["layout_scalar"] or feats["backend_name_differs"]) else fails_new).append(rec)
+    import pyrates
+    pyrates.clear(tpl)
+    fails = fails_new[:2] + fails_structural[:max(0, 2 - len(fails_new))]
+    return dict(status="violated" if fails else "ok", fails=fails)
+
+
+def case_fn(c):
+    if c.get("kind") == "positions":
+        return positions_case(c)
+    return cases.case_fn(c)
 
 
 def indexed_var_native(chk):
@@ -80,11 +136,11 @@ def main():
     for f in fb():
         chk.report_failure(f)
     driver.run_family(
-        chk, "run-outputs-vs-per-variable-spec", families(chk.tier, chk.seed), cases.case_fn, site="C06/run-outputs",
+        chk, "run-outputs-vs-per-variable-spec", families(chk.tier, chk.seed), case_fn, site="C06/run-outputs",
         rule="circuits whose nodes all differ in a parameter: two node types interleaved in 5 declaration orders, a 3-node loop "
              "declared in non-alphabetic order, a depth-1 hierarchy; requests: every variable by its own key, `all` wildcards at "
              "every level, several keys in non-alphabetic order, list form with one / two (reversed) / wildcard paths; vectorize "
-             "off and on, and after earlier run() calls on the same template instance with the other vectorize setting; clauses: columns == requested variables, one column each, column == that variable's spec trajectory "
+             "off and on, and after earlier run() calls on the same template instance with the other vectorize setting; get_variable_positions of every state variable after get_run_func(clear=False); clauses: columns == requested variables, one column each, column == that variable's spec trajectory "
              "(and which variable a wrong column really carries); distinct = (model, request, vectorize)",
         sample_of=cases.sample_of)
     rc = chk.finish(
